@@ -86,6 +86,8 @@ Proof.
 Qed.
 Lemma hex_digits_table : forallb (fun p => is_hex (fst p) && (as_hex (fst p) =? snd p)) hex_digits = true.
 Proof. vm_compute. reflexivity. Qed.
+Lemma In_by_compute c l : existsb (N.eqb c) l = true -> In c l.
+Proof. intros H. apply existsb_exists in H. destruct H as [x [Hin E]]. apply N.eqb_eq in E. subst. exact Hin. Qed.
 Lemma is_hex_iff_listed c : is_hex c = true <-> In c (map fst hex_digits).
 Proof.
   split.
@@ -93,11 +95,11 @@ Proof.
     assert (R : (48 <= c <= 57) \/ (97 <= c <= 102) \/ (65 <= c <= 70)).
     { destruct (N.leb_spec 48 c), (N.leb_spec c 57), (N.leb_spec 65 c), (N.leb_spec c 70),
                (N.leb_spec 97 c), (N.leb_spec c 102); cbn [andb orb] in Hx; try discriminate; lia. }
-    cbn [map fst hex_digits].
-    assert (E : forall a b, a <= c <= b -> exists k, (k <= N.to_nat (b - a))%nat /\ c = a + N.of_nat k).
-    { intros a b Hab. exists (N.to_nat (c - a)). split; lia. }
-    destruct R as [R|[R|R]]; destruct (E _ _ R) as [k [Hk ->]]; change (N.to_nat _) with 9%nat in Hk || change (N.to_nat _) with 5%nat in Hk;
-      do 10 (destruct k as [|k]; [cbn; tauto|]); lia.
+    assert (D : c = 48 \/ c = 49 \/ c = 50 \/ c = 51 \/ c = 52 \/ c = 53 \/ c = 54 \/ c = 55 \/ c = 56 \/ c = 57 \/
+                c = 97 \/ c = 98 \/ c = 99 \/ c = 100 \/ c = 101 \/ c = 102 \/
+                c = 65 \/ c = 66 \/ c = 67 \/ c = 68 \/ c = 69 \/ c = 70) by lia.
+    repeat (destruct D as [->|D]; [apply In_by_compute; vm_compute; reflexivity|]).
+    subst. apply In_by_compute; vm_compute; reflexivity.
   - intros H. cbn [map fst hex_digits] in H.
     repeat (destruct H as [<-|H]; [reflexivity|]). destruct H.
 Qed.
